@@ -284,6 +284,7 @@ func loadUniverse(o LoadOpts) (*Universe, error) {
 	}
 	u.LoadSecs = time.Since(t0).Seconds()
 	symU, symCallers = u, nil
+	buildFieldRoles(u)
 	return u, nil
 }
 
